@@ -102,6 +102,7 @@ def run(tier, replay=None):
            "model_shards": nshards,
            "model_cases": {"response": extra.get("model_cases_response"), "request": extra.get("model_cases_request"),
                            "request_encoder": extra.get("model_cases_request_encoder"),
+                           "real_parser_answers_vs_parser_model": extra.get("model_cases_parser"),
                            "duplicate_inputs_not_re_evaluated": extra.get("duplicates_not_sent_to_model"),
                            "distinct_inputs_over_model_cap": extra.get("distinct_over_model_cap")},
            "parser_answers_logged": extra.get("parser_answers_logged"),
@@ -110,7 +111,7 @@ def run(tier, replay=None):
            "exhaustive": False}
     return ck.finish(cov, assumptions=[
         "model Encoding/Model.v is hand-written from http/encoding.go (RequestDecoder, ResponseEncoder, SetContentType, ResponseDecoder, RequestEncoder, ErrorEncoder, text/unsupported codecs) plus a writer that freezes status and headers at the first WriteHeader, http/error.go StatusCode, pkg/error.go UnsupportedMediaTypeError; tied by evaluating it inside Coq on every distinct case the real code ran, with the real parser's logged answers as the oracle",
-        "mime.ParseMediaType is an oracle; the round-trip theorems assume parser_stable, parser_fixes_supported (and parser_keeps_suffix for pre-set headers); each is tested on every logged answer of the real parser (%s answers this run, %d failures)" % (extra.get("parser_answers_logged"), len(hyp_fail)),
+        "mime.ParseMediaType: its media type part is modelled (go_media_type / std_pmt, compared with every distinct answer of the real parser each run) and proved to satisfy parser_stable, parser_fixes_supported, parser_keeps_suffix for every parameter oracle; the general theorems keep the four hypotheses explicit (parser_accepts_suffixed is only tested); each is tested on every logged answer of the real parser (%s answers this run, %d failures)" % (extra.get("parser_answers_logged"), len(hyp_fail)),
         "encoding/json, encoding/xml, encoding/gob are oracles (codec_roundtrip hypothesis); values are 12 fixed ones the codecs round-trip; xml refuses []byte (measured, passed to the model as data)",
         "a designed content type that mime.ParseMediaType rejects makes ResponseEncoder return a nil Encoder; outside the envelope, modelled (None) and compared, not a failure",
         "every response-side observation is what the client reads: rec.Result() (status and headers frozen at the first WriteHeader/Write) for all cases, and a real httptest.Server + http.Client round trip for the error path, the fixed corpora and a quarter of the other cases whose header values net/http carries unchanged; header values net/http would rewrite (blanks at the ends, control bytes) are only observed through the recorder"],
